@@ -14,6 +14,7 @@ import (
 	"bytes"
 	"encoding/json"
 	"fmt"
+	"hash/fnv"
 	"math/rand"
 	"os"
 	"os/exec"
@@ -178,14 +179,28 @@ func c18Check(c *core.Ctx, cs c18Case) {
 			plainFiles[n] = string(b)
 		}
 	}
-	prof := filepath.Join(dir, "prof.out")
+	prof, profArg := filepath.Join(dir, "prof.out"), "prof.out"
+	// every fourth case (by a hash of the program) keeps its profile on another filesystem than the
+	// work directory and the temporary directory, when the machine has one: where the profile
+	// lives is the user's choice
+	hs := fnv.New32a()
+	hs.Write([]byte(strings.Join(cs.Files, "\x00") + cs.Mode))
+	if hs.Sum32()%4 == 0 {
+		alt := fmt.Sprintf("/dev/shm/verif-c18-%d-%08x.out", os.Getpid(), hs.Sum32())
+		if f, e := os.Create(alt); e == nil {
+			f.Close()
+			prof, profArg = alt, alt
+			defer os.Remove(alt)
+			c.Count("profiles_on_dev_shm", 1)
+		}
+	}
 	_ = os.Remove(prof)
 	if !cs.Append {
 		// an older, longer profile at the same path must be replaced, not partly overwritten
 		stale := "mode: count\n" + strings.Repeat("/stale/old.awk:1.1,1.9 1 7\n", 400)
 		_ = os.WriteFile(prof, []byte(stale), 0o644)
 	}
-	covArgs := []string{"-covermode", cs.Mode, "-coverprofile", "prof.out"}
+	covArgs := []string{"-covermode", cs.Mode, "-coverprofile", profArg}
 	if cs.Append {
 		covArgs = append(covArgs, "-coverappend")
 	}
